@@ -25,37 +25,23 @@ def check(env, rep, tier):
     rep.configs = configs
     for cfg in configs:
         prog = env.prog(cfg)
-        cands = blockutil.fns_calling(prog, "block_handler::extending_splice")
-        if len(cands) != 1:
-            rep.missing("C09.1", "the (unique) handler function that splices upload blocks into the per-key buffer (found %d)" % len(cands))
+        anchor = blockutil.upload_anchor(prog)
+        if anchor is None:
+            rep.missing("C09.1", "the handler function that splices upload blocks into the per-key buffer (or a caller of it holding the request)")
             continue
+        body, req_arg, budget_i = anchor
         # it must be reached from intercept_request
         ir = find_body(prog, blockutil.HANDLER + "intercept_request")
-        reach = False
-        if ir is not None:
-            for bb in ir["blocks"]:
-                t = bb["term"]
-                if t["k"] == "call" and (t.get("resolved") or {}).get("id") == cands[0]["id"]:
-                    reach = True
-        rep.ob("C09.1", "reached", reach, "intercept_request no longer calls the upload-block handler %s" % cands[0]["path"])
-        body = cands[0]
-        req_arg = None
-        for i in range(body["arg_count"]):
-            if "request::CoapRequest" in prog.types[body["locals"][i + 1]["ty"]]["s"]:
-                req_arg = i
-        if req_arg is None:
-            rep.missing("C09.1", "request argument of %s" % body["path"])
-            continue
+        reach = ir is not None and any(x["id"] == body["id"] for x in reachable(prog, ir))
+        rep.ob("C09.1", "reached", reach, "intercept_request no longer reaches the upload-block handler %s" % body["path"])
         tr = Trace(prog, None, body=body, req_arg=req_arg)
         site = {"file": tr.body["span"]["f"], "line": tr.body["span"]["l"], "fn": tr.body["path"]}
         I = tr.I
         rep.analysed.update(prog.bodies[b]["path"] for b in I.visited_bodies if b in prog.bodies)
         kinds = {"continue": 0, "final": 0, "too_large": 0, "pass": 0}
         ok = {"continue": True, "final": True, "too_large": True, "spliced": True, "pass": True}
-        budget = None
-        for i in range(body["arg_count"]):
-            if prog.types[body["locals"][i + 1]["ty"]]["s"] == "usize":
-                budget = tr.args[i]
+        budget = tr.args[budget_i] if budget_i is not None else None
+        cfg_place = blockutil.config_budget_place(prog, tr) if budget_i is None else None
         takes = [e for e in tr.events if e[0] == "buffer-take"]
         for s, rv in tr.res:
             marks = set(k[1] for k in s.ghost if isinstance(k, tuple) and k[0] == "inj")
@@ -68,6 +54,8 @@ def check(env, rep, tier):
                 enc = [x for x in s.bounds if I.syminfo.get(x, ("",))[0] == "len" and I.syminfo[x][1] == "encoded"]
                 pl = I.read(s, tr.req_payload_place)
                 fits = False
+                if budget_i is None and cfg_place is not None:
+                    budget = I.read(s, cfg_place)       # the handler's configured budget
                 if enc and isinstance(budget, IntV) and isinstance(pl, VecV):
                     for e_ in enc:
                         if s.entails(budget.aff - Aff.sym(e_) - pl.len):
@@ -205,11 +193,13 @@ def check_echo(prog, rep, body, req_arg, site):
                         R_ = int(c_["int"])
                 if len(us) == 3 and R_ is not None:
                     s.ghost["room"] = us[2].aff - (us[0].aff + R_ - us[1].aff)
-            if call.path == "core::cmp::min" and call.ctx.body["path"].startswith("block_handler::") and len(call.args) == 2:
+            if call.path in ("core::cmp::min", "core::cmp::Ord::min") and call.ctx.body["path"].startswith("block_handler::") and len(call.args) == 2:
+                # the property's domain: "budgets that admit the client's block size" - where the client's size meets the
+                # budget bound (C10.1 decides what that bound is), the bound is assumed to be at least the client's size
                 cl = [a for a in call.args if isinstance(a, IntV) and a.origin is not None and a.origin[0] == "shl"]
-                room = s.ghost.get("room")
-                if len(cl) == 1 and room is not None:
-                    s.add_fact(room - cl[0].aff)
+                ot = [a for a in call.args if isinstance(a, IntV) and not (a.origin is not None and a.origin[0] == "shl")]
+                if len(cl) == 1 and len(ot) == 1:
+                    s.add_fact(ot[0].aff - cl[0].aff)
                     s.ghost[("inj", "domain-admits-client-size")] = True
         I.call_hooks.insert(0, hook)
     tr = Trace(prog, None, body=body, req_arg=req_arg, setup=setup)
